@@ -24,6 +24,7 @@ Fails(e) == CASE e.ev = "setmic" -> SetMicFails(e)
               [] e.ev = "decja" -> DecJAFails(e)
               [] e.ev = "reset" -> <<>>
               [] e.ev = "crash" -> <<"C00.crash">>       \* concurrent run: the Go runtime aborted the process
+              [] e.ev = "hang" -> <<e.prop \o ".hang">>    \* a call that never returned (recorded by the watchdog of the harness)
               [] OTHER -> <<"unknown-event">>
 
 Init == l = 1 /\ nfail = 0
